@@ -22,14 +22,29 @@ class Version:
         return copy.deepcopy(self)
 
 
-def inline(v, t, params=None):
-    """params: the type parameter names of the open generic definition being inlined (tparam -> position)"""
+def inline(v, t, params=None, subst=False):
+    """params: the type parameter names of the open generic definition being inlined (tparam -> position);
+    subst: an instantiated generic record is the record it denotes on the wire (arguments substituted) instead of definition + arguments"""
     k = t[0]
     if k == "prim":
         return t
     if k == "tparam":
         return ["tparam", (params or [t[1]]).index(t[1])]
+    if subst and k != "ref":
+        if k == "opt":
+            return ["opt", inline(v, t[1], params, True)]
+        if k == "union":
+            return ["union", t[1], [[tag, inline(v, c, params, True)] for tag, c in t[2]]]
+        if k in ("vec", "arr"):
+            return [k, inline(v, t[1], params, True), t[2]]
+        if k == "map":
+            return ["map", inline(v, t[1], params, True), inline(v, t[2], params, True)]
     if k == "ref":
+        if subst:
+            d = v.defs[t[1]]
+            if d[0] == "enum":
+                return ["enum", d[1] or "int32", d[2], d[3], d[4]]
+            return ["rec", [[n, inline(v, ft, None, True)] for n, ft in d[1]], d[2]]
         if t[1] in v.instances:
             # a generic record applied to an argument: the open definition plus the arguments (change detection compares both)
             gname, arg = v.instances[t[1]]
@@ -91,8 +106,8 @@ def reinstantiate(v):
         v.defs[name] = ["rec", [[n, subst(ft, p, arg)] for n, ft in fields], name]
 
 
-def proto_json(v):
-    return [{"name": n, "ty": inline(v, t), "stream": bool(s)} for n, t, s in v.steps]
+def proto_json(v, subst=False):
+    return [{"name": n, "ty": inline(v, t, None, subst), "stream": bool(s)} for n, t, s in v.steps]
 
 
 # ------------------------------------------------------------------------------------- generation
